@@ -60,7 +60,15 @@ func run(r *mon.Report, tier string, idx int, rng *rand.Rand) {
 		s.Grow(rng, seed, cfg.Stages)
 	}
 	if cfg.Unmanaged && rng.Intn(3) == 0 {
-		s.AddUnmanagedNode(rng)
+		if n := s.AddUnmanagedNode(rng); rng.Intn(3) == 0 {
+			// a node that joined without a zone label (bare metal, a kubelet without cloud provider)
+			cur := &corev1.Node{}
+			if e.API.Raw.Get(context.Background(), types.NamespacedName{Name: n.Name}, cur) == nil {
+				delete(cur.Labels, corev1.LabelTopologyZone)
+				_ = e.API.Raw.Update(context.Background(), cur)
+				r.Inc("unmanaged_nodes_without_zone_label")
+			}
+		}
 	}
 	// mark one node deleting sometimes (its capacity must not be used)
 	deleting := ""
@@ -376,8 +384,39 @@ func checkExisting(r *mon.Report, s *common.Scenario, res provscheduling.Results
 			}
 		}
 		if !ar.OK {
-			r.Violate(violKey("existing-node-inadmissible", ar.Why, en.Pods, respects(s)), fmt.Sprintf("placement on existing node %s (%s) is not admissible: %s", en.Name(), kind, ar.Why), cs,
-				map[string]any{"node": cn, "placed": podSummaries(placed), "others": podNames(others)})
+			key := violKey("existing-node-inadmissible", ar.Why, en.Pods, respects(s))
+			// ---- root-cause classification on nodes that lack a label (names the key; never decides the verdict) ----
+			for i, p := range placed {
+				if !strings.Contains(ar.Why, "pod "+p.Name+":") {
+					continue
+				}
+				if strings.Contains(ar.Why, "volume") && volumeZonesContradict(e, p) {
+					// the zones of the pod's volumes intersect to nothing; Karpenter represents the empty set like
+					// DoesNotExist, which a node without the label satisfies (the recorded finding)
+					key = "unsat-conjunction-treated-as-DoesNotExist"
+				}
+				if strings.Contains(ar.Why, "affinity") || strings.Contains(ar.Why, "volume") {
+					ks := inKeys(p)
+					if strings.Contains(ar.Why, "volume") {
+						ks = []string{corev1.LabelTopologyZone} // a bound volume / allowedTopologies pins the zone
+					}
+					for _, k := range ks {
+						if _, has := cn.Labels[k]; has {
+							continue
+						}
+						for j, q := range en.Pods {
+							// (for a volume the pod's OWN NotIn does it too: volume requirements are checked against node + pod requirements)
+							if (j != i || strings.Contains(ar.Why, "volume")) && negativeOn(q, k) {
+								// another pod's NotIn / DoesNotExist made the key 'defined' on the ExistingNode although the Node
+								// object lacks it (same root cause as the C02 entry of that name)
+								key = "constraint-on-existing-node-without-the-label:key-defined-by-another-pod's-NotIn-requirement"
+							}
+						}
+					}
+				}
+			}
+			r.Violate(key, fmt.Sprintf("placement on existing node %s (%s) is not admissible: %s", en.Name(), kind, ar.Why), cs,
+				map[string]any{"node": cn, "placed": podSummaries(placed), "others": podNames(others), "volumes": volumeSummaries(e, placed)})
 		}
 	}
 }
@@ -625,4 +664,52 @@ func init() {
 		Cases: cases, Run: run,
 		MinObserved: map[string]int{"placements_checked": 50, "launch_options_checked": 50},
 	})
+}
+
+// inKeys: label keys the pod pins positively (nodeSelector, In / Exists / Gt / Lt expressions of its required terms).
+func inKeys(p *corev1.Pod) []string {
+	seen := map[string]bool{}
+	for k := range p.Spec.NodeSelector {
+		seen[k] = true
+	}
+	if a := p.Spec.Affinity; a != nil && a.NodeAffinity != nil && a.NodeAffinity.RequiredDuringSchedulingIgnoredDuringExecution != nil {
+		for _, t := range a.NodeAffinity.RequiredDuringSchedulingIgnoredDuringExecution.NodeSelectorTerms {
+			for _, e := range t.MatchExpressions {
+				if e.Operator != corev1.NodeSelectorOpNotIn && e.Operator != corev1.NodeSelectorOpDoesNotExist {
+					seen[e.Key] = true
+				}
+			}
+		}
+	}
+	return common.SortedKeys(seen)
+}
+
+// negativeOn: the placed copy carries NotIn / DoesNotExist on the key (required terms, or the preferred terms Karpenter
+// treats as required under the Respect policy).
+func negativeOn(p *corev1.Pod, key string) bool {
+	a := p.Spec.Affinity
+	if a == nil || a.NodeAffinity == nil {
+		return false
+	}
+	neg := func(es []corev1.NodeSelectorRequirement) bool {
+		for _, e := range es {
+			if e.Key == key && (e.Operator == corev1.NodeSelectorOpNotIn || e.Operator == corev1.NodeSelectorOpDoesNotExist) {
+				return true
+			}
+		}
+		return false
+	}
+	if r := a.NodeAffinity.RequiredDuringSchedulingIgnoredDuringExecution; r != nil {
+		for _, t := range r.NodeSelectorTerms {
+			if neg(t.MatchExpressions) {
+				return true
+			}
+		}
+	}
+	for _, t := range a.NodeAffinity.PreferredDuringSchedulingIgnoredDuringExecution {
+		if neg(t.Preference.MatchExpressions) {
+			return true
+		}
+	}
+	return false
 }
